@@ -13,7 +13,7 @@ from harness.c03 import ALIAS_MAPS, ALL_MAPS, EXTRA_MAPS, MAPS, MORE_MAPS, body_
 PROPERTY = "C12"
 BOUNDS = {
     "quick": {"path": "'/' + <= 5 solver characters (printable ASCII without ? #; '%' stands for a percent sign sent as %25), incl. leading '//host' forms", "maps": "12 redirecting maps incl. defaults (equal and wider), alias rules (same shape and with extra defaults) and per-method rules",
-              "script roots": ["/", "/app", "/app/"], "schemes": ["http", "https"]},
+              "script roots": ["/", "/app", "/app/"], "schemes": ["http", "https", "ws / wss with WebSocket rules"]},
     "thorough": {"path": "<= 7 characters"},
 }
 STUBS = ["urllib.parse.quote: per-byte model, differentially tested at start-up"]
@@ -44,6 +44,14 @@ def obligations(tier, seed):
                         "params": {"mi": mi, "order": 0, "strict": True, "merge": True, "n": n, "method": "GET", "script": "/", "scheme": "http",
                                    "pct": True, "qbind": True},
                         "opts": {"budget_s": 600 if quick else 3000, "ctx": {"max_cp": 0x7E, "bv_ints": True}}})
+    # WebSocket rules on an adapter bound to ws / wss: redirects keep that scheme
+    for mi in (0, nm + 1, na, na + 2):
+        for scheme in ("ws", "wss"):
+            for n in (range(0, 5) if quick else range(0, 7)):
+                out.append({"name": f"redirects[map={mi},websocket,{scheme},n={n}]", "body": "body_match",
+                            "params": {"mi": mi, "order": 0, "strict": True, "merge": True, "n": n, "method": "GET", "script": "/", "scheme": scheme,
+                                       "pct": True, "ws": True},
+                            "opts": {"budget_s": 600 if quick else 3000, "ctx": {"max_cp": 0x7E, "bv_ints": True}}})
     # query arguments given as a mapping (dict; multi-valued mapping with a repeated key)
     for qform in ("dict", "multi"):
         for mi, qbind in ((0, False), (nm + 1, False), (na, True), (na + 2, False)):
